@@ -27,8 +27,11 @@ RULE = ("Each case picks one of six representation pairs (label pair:*) and a "
         "simplex, kronecker_factored, separate/averaged outputs) vs gathering "
         "_rtl_structure indices into stand-alone lattices. Both library sides "
         "are compared with each other and with a float64 reference. "
-        "Non-trivial: the reference output of the case is not constant over "
-        "the evaluated points/units; distinct by SHA-1 of the case.")
+        "Non-trivial: the represented function is not constant (dense kernel "
+        "/ keypoint outputs / step activations / per-element model values / "
+        "RTL outputs vary by more than 10x the tolerance), for pc more than "
+        "one calibrator, for agg some row with more than one element; "
+        "distinct by SHA-1 of the case.")
 NT_FLOOR = 0.6
 BUDGET = {"quick": 400, "thorough": 5000}
 TECHNIQUE = ("property-based testing (Hypothesis): differential testing of "
@@ -252,7 +255,7 @@ def _run_kfl(case, out):
     out.label("kfl:list-input")
   if case["extra"]:
     out.label("kfl:extra-batch-dim")
-  out.nontrivial = bool(np.ptp(ref) > 10 * float(np.max(tol)))
+  out.nontrivial = bool(np.any(np.ptp(dense, axis=0) > 10 * tol))
   _cmp(out, "kfl-vs-ref", y_kfl, ref, tol, sig)
   _cmp(out, "lattice-vs-ref", y_lat, ref, tol, sig)
   _cmp(out, "kfl-vs-lattice", y_kfl, y_lat, tol, sig)
@@ -473,9 +476,9 @@ def _run_pwl(case, out):
   sy = scale_of(omin, omax)
   y_ref = _pwl_eval_ref(xu, ref["kp"], ref["y"], ref["miss"], miss_in)
   tol = TOL_F * sy + _pwl_cond_tol(xu, ref["kp"], ref["kernel"])
-  out.nontrivial = bool(np.ptp(y_ref) > 10 * TOL_F * sy)
+  out.nontrivial = bool(np.max(np.ptp(ref["y"], axis=-1)) > 10 * TOL_F * sy)
   ok = _cmp(out, "fn-vs-ref", y_fn, y_ref, tol, sig)
-  _cmp(out, "fn-derived-vs-plain", y_plain, y_fn, 0.0, sig)
+  _cmp(out, "fn-derived-vs-plain", y_plain, y_fn, TOL_F * sy, sig)
   _cmp(out, "fn-derived-deltas-vs-ref", d_fn,
        np.broadcast_to(ref["deltas"], d_fn.shape) if d_fn.shape[1:] == (
            u, k - 1) else ref["deltas"], TOL_F * (hi - lo), sig)
@@ -667,9 +670,9 @@ def _run_cdf(case, out):
              reduction=case["reduction"], sparse=sf > 1,
              scaling=case["scaling"], exp=mult is not None)
   tol = TOL_F
-  out.nontrivial = bool(np.ptp(ref) > 10 * tol)
+  out.nontrivial = bool(np.ptp(steps) > 10 * tol)
   _cmp(out, "fn-vs-ref", y_fn, ref, tol, sig)
-  _cmp(out, "fn-derived-vs-plain", y_plain, y_fn, 0.0, sig)
+  _cmp(out, "fn-derived-vs-plain", y_plain, y_fn, tol, sig)
   _cmp(out, "fn-derived-locations", _f64(loc_fn), loc.astype(np.float64), 0.0,
        sig)
   sc_b = _f64(sc_fn)
@@ -902,7 +905,7 @@ def _run_agg(case, out):
             "agg:batch=1" if b == 1 else "agg:batch>1",
             "agg:scalar-model-inputs" if case["scalar_inputs"] else
             "agg:column-model-inputs")
-  sig = dict(pair="agg", kind=kind, dict_input=case["dict_input"])
+  sig = dict(pair="agg", model=kind, dict_input=case["dict_input"])
   tol = TOL_F * mag + 1e-30
   out.nontrivial = bool(max(lengths) > 1 and np.ptp(f_ref) > 10 * tol)
   _cmp(out, "aggregation-vs-ref", y, ref, tol, sig)
